@@ -476,6 +476,25 @@ class Gen:
         key = key or name
         self.fn(src, it, key, specs.get(key))
 
+    def block_fn(self, src, fn_name, opener_re, header, key, specs, tail=""):
+        """R45: a block handed to a spawner inside function `fn_name` (found by the regular expression `opener_re`, which must end
+        at the block's `{`) is read as the body of a function with the given header over the variables the block captures.  The
+        block text is taken verbatim and keeps its line numbers; `tail` (an expression naming a captured variable) is put before
+        the closing brace when the contract has to speak about that variable's final state."""
+        it = src.find("fn", fn_name)
+        ms = list(re.compile(opener_re).finditer(src.s, it.body_open, it.end))
+        if len(ms) != 1:
+            raise GenError(f"{fn_name}: {len(ms)} blocks match /{opener_re}/")
+        open_pos = ms[0].end() - 1
+        k = [i for i, t in enumerate(src.toks) if t.pos == open_pos and t.text == "{"]
+        if not k:
+            raise GenError(f"{fn_name}: block opener is not a token")
+        close_pos = src.toks[match_close(src.toks, k[0])].pos
+        text = "\n" * (src.line_of(open_pos) - 1) + header + " " + src.s[open_pos:close_pos] + tail + "}\n"
+        syn = Src(self.repo, src.rel, text)
+        self.fired["R45"] = self.fired.get("R45", 0) + 1
+        self.top_fn(syn, key, specs)
+
     # -- result
     def render(self):
         """Returns (text, linemap[list of origin per generated line (1-based index-1)], fn_ranges)."""
